@@ -159,46 +159,50 @@ func c07Retry(r *core.Run, ef *errFlow) {
 		r.Unknown("R07.3", key, is.Pos(), "errors.Is result does not branch directly")
 		return
 	}
-	tb := iff.Block().Succs[0]
-	reg := dominatedRegion(tb)
-	if len(tb.Preds) != 1 {
-		r.Unknown("R07.3", key, is.Pos(), "retry edge shared with other paths")
-		return
-	}
+	// path-wise (the two sides may share their tail, e.g. `if !errors.Is(...) { errCh <- ... }; return false`):
+	// every path from the ErrNotEnoughBytes edge to the exit has no send and returns false; every path from the other
+	// edge reports on errCh
 	ok := true
 	why := ""
-	for b := range reg {
-		for _, in := range b.Instrs {
-			switch x := in.(type) {
-			case *ssa.Send:
-				ok, why = false, "sends on "+core.Expr(x.Chan)+" on the retry path"
-			case *ssa.Return:
-				if c, isC := core.RetVals(x)[0].(*ssa.Const); !isC || c.Value == nil || c.Value.ExactString() != "false" {
+	fErrCh := p.Field("tds", "Channel", "errCh")
+	walk := func(from *ssa.BasicBlock, retry bool) {
+		visit := func(pa core.Path, ended bool) {
+			sent, sentErr := false, false
+			var ret *ssa.Return
+			for _, b := range pa.Blocks {
+				for _, in := range b.Instrs {
+					switch x := in.(type) {
+					case *ssa.Send:
+						sent = true
+						if f, _ := core.FieldLoad(x.Chan); f != nil && f == fErrCh {
+							sentErr = true
+						}
+					case *ssa.Return:
+						ret = x
+					}
+				}
+			}
+			if retry {
+				if sent {
+					ok, why = false, "something is sent on the retry path"
+				}
+				if ret == nil {
+					ok, why = false, "retry path continues parsing"
+				} else if c, isC := core.RetVals(ret)[0].(*ssa.Const); !isC || c.Value == nil || c.Value.ExactString() != "false" {
 					ok, why = false, "retry path does not return false"
 				}
+			} else if !sentErr {
+				ok, why = false, "a parse error other than not-enough-bytes is not reported on errCh"
 			}
 		}
-		for _, s := range b.Succs {
-			if !reg[s] {
-				ok, why = false, "retry path continues parsing"
-			}
+		if len(from.Succs) == 0 {
+			visit(core.Path{Blocks: []*ssa.BasicBlock{from}}, false)
+			return
 		}
+		core.EnumPaths(from, func(b *ssa.BasicBlock) bool { return false }, nil, 500, visit)
 	}
-	// the non-ENEB side must report on errCh
-	fb := iff.Block().Succs[1]
-	reported := false
-	for b := range dominatedRegion(fb) {
-		for _, in := range b.Instrs {
-			if s, isS := in.(*ssa.Send); isS {
-				if f, _ := core.FieldLoad(s.Chan); f != nil && f == p.Field("tds", "Channel", "errCh") {
-					reported = true
-				}
-			}
-		}
-	}
-	if ok && !reported {
-		ok, why = false, "a parse error other than not-enough-bytes is not reported on errCh"
-	}
+	walk(iff.Block().Succs[0], true)
+	walk(iff.Block().Succs[1], false)
 	r.Check(ok, "R07.3", key, is.Pos(), "errors.Is(err, ErrNotEnoughBytes) → return false with no send; other errors → errCh", why)
 }
 
